@@ -158,8 +158,11 @@ func (c *compressor) writeBlock() {
 	c.next = 0
 
 	b := c.buf.Bytes()
-	i := bytes.Index(b, bgzfExtraPrefix)
-	if i < 0 {
+	// The BGZF subfield is written first in the extra field, which
+	// follows the fixed 10 byte gzip header and the 2 byte XLEN. Do not
+	// search for it: MTIME, XFL and OS can hold the same byte pattern.
+	const i = 12
+	if len(b) < i+len(bgzfExtra) || !bytes.HasPrefix(b[i:], bgzfExtraPrefix) {
 		c.err = gzip.ErrHeader
 		return
 	}
